@@ -12,7 +12,8 @@ def run_driver(script, spec, timeout=1200):
     try:
         env = dict(os.environ, PYTHONPATH=d)
         q = subprocess.run(["/venv/bin/python", os.path.join(harness.VERIF, "replay_src", script), sp], capture_output=True, text=True, env=env, timeout=timeout)
-        lines = [l for l in q.stdout.strip().splitlines() if l.startswith("{")]
+        i = q.stdout.rfind('{"failures"')
+        lines = [q.stdout[i:].strip().splitlines()[0]] if i >= 0 else []
         if not lines:
             return {"failures": [{"what": "driver died (exit %s): %s" % (q.returncode, (q.stderr or "")[-400:])}], "cases": 0}
         return json.loads(lines[-1])
